@@ -203,6 +203,7 @@ def label_builder_shape(fi: FuncInfo, node_keys: str, edge_keys: str, directed: 
     defs = local_defs(fn)
     pm = parent_map(fn)
     obs = []
+    unrecognised = False
     # node segment
     pat = f"'|'.join((':'.join((str(self._freeze({G}.nodes[$v].get($a, ''))) for $a in self.{node_keys})) for $v in {perm}))"
     segs = [(n, b) for n, b in pfind("$ns = $$e", fn, into_nested=False) if isinstance(n, ast.Assign) and pmatch(pat, n.value) is not None]
@@ -276,6 +277,7 @@ def label_builder_shape(fi: FuncInfo, node_keys: str, edge_keys: str, directed: 
                         "a pair of positions gets '1:' + the selected attributes of exactly the edge between them, or '0:' if there is none", inner_l))
         else:
             obs.append(("edge-bit", None, f"{perm}[i] / {perm}[j]", "pair loops / bit expressions not recognised", outer_l))
+            unrecognised = True
     if not loops:
         # functional form: one generator over combinations(perm, 2) / permutations(perm, 2) joined with '|'
         it_pat = f"permutations({perm}, 2)" if directed else f"combinations({perm}, 2)"
@@ -296,6 +298,9 @@ def label_builder_shape(fi: FuncInfo, node_keys: str, edge_keys: str, directed: 
                     obs.append(("pairs", True, it_pat, ("every ordered pair of distinct positions contributes an arc bit" if directed else "every unordered pair of positions contributes an edge bit"), fn))
                     obs.append(("return", ok_ret_f, rets_[-1] if rets_ else "return", "the label is the node segment followed by all pair bits (nothing dropped)", fn))
                     return obs
+    if unrecognised:
+        # the bits are produced in a way this rule does not read (helper, memo, table): nothing here is evidence of a wrong label
+        ok_pairs = ok_pairs or None
     obs.append(("pairs", ok_pairs, [norm(l.iter) for l in loops],
                 ("every ordered pair of distinct positions contributes an arc bit" if directed else "every unordered pair of positions contributes an edge bit"), fn))
     # return NS + '||' + '|'.join(bits)
@@ -306,6 +311,8 @@ def label_builder_shape(fi: FuncInfo, node_keys: str, edge_keys: str, directed: 
         if m:
             es_src = origin(defs, ast.Name(id=m["es"], ctx=ast.Load()))
             ok_ret = pmatch("'|'.join($eb)", es_src, {"eb": bits_name}) is not None
+    if unrecognised and not ok_ret:
+        ok_ret = None
     obs.append(("return", ok_ret, rets[-1] if rets else "return", "the label is the node segment followed by all pair bits (nothing dropped)", fn))
     return obs
 
